@@ -125,8 +125,11 @@ func (mdb *MassDBV1) prePlotWork(cache *MemCache) error {
 		return hmA.makeAvailableMemory(cache, uint64(hmA.volume-startPoint)*uint64(recordSize))
 	}
 	var calcWindowSize = func() pocutil.PoCValue {
-		rem := (cache.Len() / recordSize) & 1
-		return pocutil.PoCValue(cache.Len()/recordSize - rem)
+		n := cache.Len() / recordSize
+		if n > 1 {
+			n -= n & 1 // keep windows even-sized, but never empty
+		}
+		return pocutil.PoCValue(n)
 	}
 	for startPoint := checkpoint; startPoint < hmA.volume; {
 		if err := ensureCacheMemory(startPoint); err != nil {
